@@ -6,7 +6,7 @@
 
 use crate::alloc;
 use crate::ev::{self, Ev, LOG};
-use crate::payload::{Pay, A, B};
+use crate::payload::{Pay, A, B, E};
 use crate::trace::{sched_enter, sched_leave, sched_point, sched_start, sched_stop, SERIALISE, TID, YIELD_EVERY};
 use serde_json::{json, Value};
 use std::sync::atomic::Ordering;
@@ -599,6 +599,8 @@ pub fn run_injections(out_path: &str) {
         Arc(Arc<A>),
         Off(OffsetArc<A>),
         Uni(ArcUnion<A, B>),
+        // second variant, both payload types equally aligned
+        Uni2(ArcUnion<E, A>),
         Thin(ThinArc<A, u32>),
         Fat(Fat),
     }
@@ -607,6 +609,7 @@ pub fn run_injections(out_path: &str) {
             V::Arc(a) => &**a,
             V::Off(o) => &**o,
             V::Uni(u) => u.as_first().map(|b| b.get() as *const A).unwrap_or(std::ptr::null()),
+            V::Uni2(u) => u.as_second().map(|b| b.get() as *const A).unwrap_or(std::ptr::null()),
             V::Thin(t) => &t.header.header,
             V::Fat(f) => &f.header.header,
         }
@@ -616,13 +619,16 @@ pub fn run_injections(out_path: &str) {
             V::Arc(a) => V::Arc(a.clone()),
             V::Off(o) => V::Off(o.clone()),
             V::Uni(u) => V::Uni(u.clone()),
+            V::Uni2(u) => V::Uni2(u.clone()),
             V::Thin(t) => V::Thin(t.clone()),
             V::Fat(f) => V::Fat(f.clone()),
         }
     }
-    let kinds = ["arc", "off", "uni", "thin", "fat"];
+    let kinds = ["arc", "off", "uni", "uni2", "thin", "fat"];
     let victim_ops = ["drop", "clone", "clone_arc", "try_unwrap", "make_mut", "unwrap_or_clone", "get_mut", "clone_from"];
-    let adversary = ["drop1", "drop2", "clone_drop", "try_unwrap", "read_drop1", "clone"];
+    // "clone_shared": the adversary clones through a shared reference to the VICTIM's handle (handles are Sync);
+    // only legal while the victim call itself only borrows its handle (clone, clone_arc)
+    let adversary = ["drop1", "drop2", "clone_drop", "try_unwrap", "read_drop1", "clone", "clone_shared"];
     let mut w = std::io::BufWriter::new(std::fs::File::create(out_path).unwrap());
     let mut scen = 0u64;
     for kind in kinds {
@@ -640,8 +646,17 @@ pub fn run_injections(out_path: &str) {
             if !ok {
                 continue;
             }
-            for others in [1usize, 2] {
+            for others in [0usize, 1, 2] {
                 for adv in adversary {
+                    if (adv == "clone_shared") != (others == 0 || vop == "clone" || vop == "clone_arc") && adv == "clone_shared" {
+                        continue;
+                    }
+                    if adv == "clone_shared" && !(vop == "clone" || vop == "clone_arc") {
+                        continue;
+                    }
+                    if others == 0 && adv != "clone_shared" {
+                        continue;
+                    }
                     for k1 in 1..=3usize {
                         for k2 in [0usize, 1, 2] {
                             // k2 = 0: one preemption; else a second one k2 events after the first
@@ -658,6 +673,7 @@ pub fn run_injections(out_path: &str) {
                                     "arc" => V::Arc(Arc::new(A::mk(v))),
                                     "off" => V::Off(Arc::into_raw_offset(Arc::new(A::mk(v)))),
                                     "uni" => V::Uni(ArcUnion::from_first(Arc::new(A::mk(v)))),
+                                    "uni2" => V::Uni2(ArcUnion::from_second(Arc::new(A::mk(v)))),
                                     "thin" => V::Thin(ThinArc::from_header_and_slice(A::mk(v), &[1, 2, 3])),
                                     _ => V::Fat(Arc::from_header_and_slice(HeaderWithLength::new(A::mk(v), 3), &[1, 2, 3])),
                                 }
@@ -669,10 +685,12 @@ pub fn run_injections(out_path: &str) {
                                 V::Arc(a) => a.heap_ptr() as usize,
                                 V::Off(o) => o.with_arc(|a| a.heap_ptr() as usize),
                                 V::Uni(u) => u.as_first().unwrap().with_arc(|a| a.heap_ptr() as usize),
+                                V::Uni2(u) => u.as_second().unwrap().with_arc(|a| a.heap_ptr() as usize),
                                 V::Thin(t) => t.heap_ptr() as usize,
                                 V::Fat(f) => f.heap_ptr() as usize,
                             };
                             let mut theirs: Vec<V> = (0..others).map(|_| clone_v(&victim)).collect();
+                            let victim_ref: *const V = &victim;
                             let spare = mk(2); // a second value, for clone_from
                             ev::LOG.clear();
                             SERIALISE.store(true, Ordering::SeqCst);
@@ -719,6 +737,11 @@ pub fn run_injections(out_path: &str) {
                                             hs.push(c);
                                         }
                                     }
+                                    "clone_shared" => {
+                                        let c = clone_v(unsafe { &*victim_ref });
+                                        mark(HINC, 0);
+                                        hs.push(c);
+                                    }
                                     "read_drop1" => {
                                         if let Some(h) = hs.pop() {
                                             read_payload(unsafe { &*payload(&h) });
@@ -755,6 +778,28 @@ pub fn run_injections(out_path: &str) {
                             TID.with(|t| t.set(1));
                             let mut kept: Vec<V> = vec![];
                             mark(START, 0);
+                            if adv == "clone_shared" {
+                                // the victim call only borrows its handle; it stays where `victim_ref` points
+                                match (vop, &victim) {
+                                    ("clone", v) => {
+                                        let c = clone_v(v);
+                                        mark(HINC, 0);
+                                        kept.push(c);
+                                    }
+                                    ("clone_arc", V::Off(o)) => {
+                                        let c = o.clone_arc();
+                                        mark(HINC, 0);
+                                        kept.push(V::Arc(c));
+                                    }
+                                    ("clone_arc", V::Arc(a)) => {
+                                        let c = a.borrow_arc().clone_arc();
+                                        mark(HINC, 0);
+                                        kept.push(V::Arc(c));
+                                    }
+                                    _ => {}
+                                }
+                                kept.push(victim);
+                            } else {
                             match (vop, victim) {
                                 ("drop", v) => {
                                     mark(HDEC, 0);
@@ -840,6 +885,7 @@ pub fn run_injections(out_path: &str) {
                                         (V::Arc(x), V::Arc(y)) => x.clone_from(y),
                                         (V::Off(x), V::Off(y)) => x.clone_from(y),
                                         (V::Uni(x), V::Uni(y)) => x.clone_from(y),
+                                        (V::Uni2(x), V::Uni2(y)) => x.clone_from(y),
                                         (V::Thin(x), V::Thin(y)) => x.clone_from(y),
                                         (V::Fat(x), V::Fat(y)) => x.clone_from(y),
                                         _ => {}
@@ -847,6 +893,7 @@ pub fn run_injections(out_path: &str) {
                                     std::mem::forget(v);
                                 }
                                 (_, v) => kept.push(v),
+                            }
                             }
                             mark(END, 0);
                             INJECT.with(|i| *i.borrow_mut() = None);
